@@ -279,6 +279,12 @@ def snapshot(schema):
     for name, t in schema.types.items():
         if name.startswith("__") or name in SPECIFIED:
             continue
+        extra["%s:class" % name] = type(t).__qualname__          # a RegexType / user subclass stays what it is
+        if isinstance(t, ScalarType):
+            try:
+                extra["%s:behaviour" % name] = (repr(t.serialize("12.34")), repr(t.parse("12.34")))
+            except Exception as e:
+                extra["%s:behaviour" % name] = type(e).__name__
         if isinstance(t, (ObjectType, InterfaceType)):
             for f in t.fields:
                 extra["%s.%s" % (name, f.name)] = (id(getattr(f, "resolver", None)) if getattr(f, "resolver", None) else None,
